@@ -34,6 +34,16 @@ pub const FRAMES: usize = 50;
 pub const RESID_MAX: f64 = TAU;
 /// Requested eigenvalues below DYN·λ₁ put a case into the "wide dynamic range" class (see check_pca).
 pub const DYN: f64 = 1e-4;
+/// Known finding `eigenpairs-misassigned`: both eigenvalues of the transposed pair lie below MISPAIR_TAIL·λ₁ (mechanism: the
+/// skipped 2x2 rotation needs an off-diagonal below eps in absolute terms, impossible for eigenvalues comparable to λ₁;
+/// largest observed on the unchanged tree: 6.8e-3·λ₁).
+pub const MISPAIR_TAIL: f64 = 1e-2;
+/// Known finding `inconsistent-components`: smallest requested eigenvalue below GARBAGE_TAIL·λ₁.
+pub const GARBAGE_TAIL: f64 = 1e-5;
+/// `pca:ritz-residual`: allowed multiple of the configured solver tolerance (the seeded 1e-3 precision is 1e4 units).
+pub const RITZ_SLACK: f64 = 100.0;
+/// `pca:ritz-residual` is asserted for a relative gap (λ_k − λ_{k+1})/λ_k of at least this.
+pub const RITZ_MIN_GAP: f64 = 0.2;
 /// A run of LOBPCG that is certifiably unconverged (but returns genuine Ritz pairs) is counted as not judged when it misses
 /// the optimality tolerances by at most this factor; beyond it the result is reported as a failure.
 pub const NOT_CONVERGED_SLACK: f64 = 10.0;
@@ -225,11 +235,12 @@ pub fn check_pca(c: &Case, obs: &mut Obs) {
     });
     let model = match fitted {
         Err(m) => {
-            if !in_range && m.contains("NaN values in array") {
+            if !in_range && m.starts_with("NaN values in array") && m.contains("linfa-linalg") && m.contains("eigh.rs") {
                 obs.skip("beyond_singular_ratio_1e3:fit_panic_nan");
             } else if m.starts_with("NaN values in array") && {
+                // payload of linfa-linalg's `cmp_floats` and the panic site recorded by the engine's hook
                 let loc = m.rsplit(" @ ").next().unwrap_or("");
-                loc.is_empty() || (loc.contains("linfa-linalg") && loc.contains("eigh.rs"))
+                loc.contains("linfa-linalg") && loc.contains("eigh.rs")
             } {
                 // recognised by the exact panic (message and site): LOBPCG kept iterating on round-off until its
                 // Rayleigh–Ritz matrices contained NaN. Any other panic of fit is `panic:fit`.
@@ -314,15 +325,8 @@ pub fn check_pca(c: &Case, obs: &mut Obs) {
     //   mismatch   = max_j |sigma_j^2/(n-1) − q_j| / q_j
     // PCA has no convergence flag (the LOBPCG error is swallowed in TruncatedSvd::decompose), so nothing is skipped
     // as "unconverged": the obligations below are evaluated at the design's tolerances on whatever is returned.
-    // The quantities only serve to give the observed faces of the LOBPCG breakdown inside 5k > p their own
-    // signatures (known findings), each recognised by what exactly is wrong:
-    //   inconsistent-components : some u_j is no eigenvector on its own scale and the answer is not even a set of
-    //                             Ritz pairs (not Ritz-like, or sigma_j^2/(n-1) is not the variance along u_j)
-    //   eigenpairs-misassigned  : all u_j are eigenvectors and all sigma_j^2/(n-1) are eigenvalues of C, but sigma_j
-    //                             belongs to another component, or they are not the leading pairs
-    //   unnormalised-component  : right directions, but a row of the embedding has the wrong norm
-    //   not-leading-eigenpairs  : a λ₁-scaled optimality obligation (singular value, eigenspace, retained variance,
-    //                             random frames) fails — see below
+    // The quantities also serve to recognise the two residual defects of the external eigen-solver under their exact
+    // preconditions (known findings, see below); everything else fails under the ordinary signatures.
     let mut resid_top = 0.0f64; // relative to λ₁ (reported only)
     let mut resid_own = 0.0f64;
     let mut mismatch = 0.0f64;
@@ -350,54 +354,12 @@ pub fn check_pca(c: &Case, obs: &mut Obs) {
     }
     obs.class_if(resid_own > 1e-10, "residual>1e-10");
     obs.class_if(resid_own > 1e-7, "residual>1e-7");
-    // MEASURE: pair residual |C u_j - l_j u_j| in units of the configured solver tolerance 1e-10*max(trace C, 1/(n-1))
-    {
-        let trace: f64 = (0..p).map(|i| cov[i][i]).sum();
-        let unit = 1e-10 * trace.max(1.0 / nm1);
-        let mut rmax = 0.0f64;
-        for j in 0..kk {
-            let lj = sigma[j] * sigma[j] / nm1;
-            let r2: f64 = cus[j].iter().zip(&dirs[j]).map(|(a, b)| (a - lj * b).powi(2)).sum();
-            rmax = rmax.max(r2.sqrt() / unit);
-        }
-        let reg = if small_problem { "dense" } else { "lobpcg" };
-        let b = if rmax <= 1.0 { "<=1" } else if rmax <= 10.0 { "<=1e1" } else if rmax <= 100.0 { "<=1e2" } else if rmax <= 1e3 { "<=1e3" } else if rmax <= 1e4 { "<=1e4" } else if rmax <= 1e5 { "<=1e5" } else { ">1e5" };
-        let name: &'static str = Box::leak(format!("MEAS:{reg}:pairresid{b}").into_boxed_str());
-        obs.class(name);
-        {
-            let relgap = if k < p { (lam[k - 1] - lam[k]) / lam[k - 1] } else { 1.0 };
-            if !small_problem && 2 * n >= 10 * p && relgap >= 0.2 {
-                let name: &'static str = Box::leak(format!("MEAS:R:{b}").into_boxed_str());
-                obs.class(name);
-            }
-            if !small_problem && 2 * n >= 10 * p && relgap >= 0.05 && relgap < 0.2 {
-                let name: &'static str = Box::leak(format!("MEAS:R5-20:{b}").into_boxed_str());
-                obs.class(name);
-            }
-        }
-        if rmax > 1.0 {
-            let relgap = if k < p { (lam[k - 1] - lam[k]) / lam[k - 1] } else { 1.0 };
-            let g = if relgap < 0.01 { "<1%" } else if relgap < 0.05 { "<5%" } else if relgap < 0.2 { "<20%" } else { ">=20%" };
-            let nn = if 2 * n < 10 * p { "2n<10p" } else { "2n>=10p" };
-            let name: &'static str = Box::leak(format!("MEAS:{reg}:outlier:relgap{g}:{nn}:k{}:{b}", if k == p { "=p" } else if k == 1 { "=1" } else { "mid" }).into_boxed_str());
-            obs.class(name);
-        }
-        if !small_problem {
-            let relgap = if k < p { (lam[k - 1] - lam[k]) / lam[k - 1] } else { 1.0 };
-            let g = if relgap < 0.01 { "<1%" } else if relgap < 0.05 { "<5%" } else if relgap < 0.2 { "<20%" } else { ">=20%" };
-            let name: &'static str = Box::leak(format!("MEAS:lobpcg:all:relgap{g}").into_boxed_str());
-            obs.class(name);
-        }
-    }
     obs.class_if(resid_own > RESID_MAX && ritz_like, "component_not_converged_on_own_scale_but_ritz_consistent");
     let l: Vec<f64> = sigma.iter().map(|s| s * s / nm1).collect();
-    let values_are_eigs = l.iter().all(|v| lam.iter().any(|e| (v - e).abs() <= RESID_MAX * e.abs()));
     let leading_ok = (0..kk).all(|j| (l[j] - lam[j]).abs() <= RESID_MAX * lam[j].abs());
     let sorted = (1..kk).all(|j| sigma[j - 1] >= sigma[j]);
-    // a component that is not an eigenvector on its own scale is acceptable only as a genuine Ritz pair
-    let garbage = resid_own > RESID_MAX && (!ritz_like || mismatch > RESID_MAX);
-    let misassigned = resid_own <= RESID_MAX && values_are_eigs && sorted && (mismatch > RESID_MAX || !leading_ok);
-    obs.class_if(!in_range && (garbage || misassigned), "beyond_singular_ratio_1e3:solver_inaccurate");
+    let row_scale: Vec<f64> = (0..kk).map(|j| if c.whiten { norms[j] * sigma[j] / nm1.sqrt() } else { norms[j] }).collect();
+    let unit_rows = row_scale.iter().all(|v| (v * v - 1.0).abs() <= TAU);
     // `spectral`: the solver-dependent obligations are evaluated
     let mut spectral = in_range;
     let describe = |what: &str| {
@@ -407,48 +369,95 @@ pub fn check_pca(c: &Case, obs: &mut Obs) {
             c.whiten, l, qs, lam
         )
     };
-    // fourth face: a correct eigen-direction returned with a norm far from 1 (observed: 3e-12), i.e. V V^T != I
-    // (un-whitened) resp. a whitened row whose norm is not sqrt(n-1)/sigma_j
-    let row_scale: Vec<f64> = (0..kk).map(|j| if c.whiten { norms[j] * sigma[j] / nm1.sqrt() } else { norms[j] }).collect();
-    // (squared, as in the V V^T = I obligation)
-    let unnormalised = ritz_like && row_scale.iter().any(|v| (v * v - 1.0).abs() > TAU);
-    if in_range && small_problem && !garbage && !misassigned && unnormalised {
+
+    // ---- residual defects of the external eigen-solver (known findings), each under its exact precondition ----
+    // Everything that does not match one of the two patterns below falls through to the ordinary obligations.
+    //
+    // (A) `eigenpairs-misassigned`: linfa-linalg's symmetric `eigh` (port of nalgebra's symmetric_eigen) handles a
+    //     trailing 2x2 block by writing its two eigenvalues in descending order but skips the rotation of the
+    //     eigenvectors when the off-diagonal entry is below eps in *absolute* terms (matrix scaled to max-entry 1),
+    //     which is reachable only for eigenvalues that are small against λ₁. The result is the exact decomposition
+    //     with the vectors of two small eigenvalues transposed. In the full-space path (5k > min(n,p)) LOBPCG's
+    //     follow-up iteration normally repairs it; when that step fails the transposition survives.
+    //     Recognised constructively as "exact answer up to one transposition": every component is an eigenvector on
+    //     its own scale, rows are unit-scaled and mutually (C-)orthogonal, values are sorted and every sigma_j^2/(n-1)
+    //     equals the eigenvalue λ_j of its rank; every component carries its own variance except one pair (a, b), both
+    //     eigenvalues < MISPAIR_TAIL·λ₁, which carry each other's (b may lie beyond k, truncated away: then only
+    //     component a shows it, carrying λ_b). With that verified nothing else about the answer is left to be wrong.
+    let mut mispair: Option<(usize, usize)> = None;
+    if in_range && small_problem && sorted && leading_ok && unit_rows && ritz_like && resid_own <= RESID_MAX && kk == k {
+        let close = |a: f64, b: f64| (a - b).abs() <= RESID_MAX * b.abs();
+        let off: Vec<usize> = (0..kk).filter(|&j| !close(l[j], qs[j])).collect();
+        let cand = match off.as_slice() {
+            [a, b] if close(qs[*a], lam[*b]) && close(qs[*b], lam[*a]) => Some((*a, *b)),
+            [a] => (kk..p).find(|&m| close(qs[*a], lam[m])).map(|m| (*a, m)),
+            _ => None,
+        };
+        if let Some((a, b)) = cand {
+            if lam[a] < MISPAIR_TAIL * lam1 && lam[b] < MISPAIR_TAIL * lam1 {
+                mispair = Some((a, b));
+            }
+        }
+    }
+    if let Some((a, b)) = mispair {
         spectral = false;
         obs.class("solver_failed");
-        obs.class("solver_failed:unnormalised_component");
+        obs.class("solver_failed:two_small_eigenvectors_transposed");
         obs.fail(
-            "pca:solver-breakdown:unnormalised-component",
+            "pca:solver-breakdown:eigenpairs-misassigned",
             describe(&format!(
-                "the components point along eigenvectors of the sample covariance but a row does not have the norm it must have (row norms relative to {} = {:?})",
-                if c.whiten { "sqrt(n-1)/sigma_j" } else { "1" },
-                row_scale
+                "full-space path: exact decomposition except that component {a} is the eigenvector of eigenvalue {b}{} (lambda_{a}/lambda_1 = {:.2e}, lambda_{b}/lambda_1 = {:.2e})",
+                if b < kk { format!(" and component {b} that of eigenvalue {a}") } else { " (its partner was truncated away)".to_string() },
+                lam[a] / lam1,
+                lam[b] / lam1
             )),
         );
     }
-    if in_range && small_problem && (garbage || misassigned) {
+    // (B) `inconsistent-components`: in the same full-space path the follow-up iteration works with a singular Gram
+    //     matrix (eigenvalues clamped at 1e-10) and can inject errors of order 1e-6·λ₁ into the trailing components.
+    //     Precondition: 5k > min(n,p), smallest requested eigenvalue below GARBAGE_TAIL·λ₁, and a component that is
+    //     neither an eigenvector on its own scale nor part of a genuine set of Ritz pairs.
+    let garbage = resid_own > RESID_MAX && (!ritz_like || mismatch > RESID_MAX);
+    obs.class_if(!in_range && garbage, "beyond_singular_ratio_1e3:solver_inaccurate");
+    if in_range && small_problem && garbage && lam[k - 1] < GARBAGE_TAIL * lam1 {
         spectral = false;
         obs.class("solver_failed");
-        obs.class_if(k > 1 && k < p && p % k != 0, "solver_failed:k_does_not_divide_p");
-        obs.class_if(k == p, "solver_failed:k=p");
-        obs.class_if(wide_range, "solver_failed:wide_range");
-        if garbage {
-            obs.fail(
-                "pca:solver-breakdown:inconsistent-components",
-                describe(if !ritz_like {
-                    "a returned component is not an eigenvector of the sample covariance on its own scale, and the components are not mutually orthogonal / uncorrelated either"
-                } else {
-                    "a returned component is not an eigenvector of the sample covariance on its own scale, and sigma^2/(n-1) is not the variance along it either (no Ritz pair)"
-                }),
-            );
-        } else {
-            obs.fail(
-                "pca:solver-breakdown:eigenpairs-misassigned",
-                describe(if mismatch > RESID_MAX {
-                    "components are eigenvectors and sigma^2/(n-1) are eigenvalues of the sample covariance, but a sigma_j belongs to another component"
-                } else {
-                    "components are eigenvectors and sigma^2/(n-1) are eigenvalues of the sample covariance, but they are not the leading eigenpairs"
-                }),
-            );
+        obs.class("solver_failed:inconsistent_tail_components");
+        obs.fail(
+            "pca:solver-breakdown:inconsistent-components",
+            describe(if !ritz_like {
+                "full-space path, lambda_k < 1e-5 lambda_1: a returned component is not an eigenvector of the sample covariance on its own scale, and the components are not mutually orthogonal / uncorrelated either"
+            } else {
+                "full-space path, lambda_k < 1e-5 lambda_1: a returned component is not an eigenvector of the sample covariance on its own scale, and sigma^2/(n-1) is not the variance along it either (no Ritz pair)"
+            }),
+        );
+    }
+
+    // ---- solver accuracy where the configured tolerance is reached with margin --------------------
+    // linfa-reduction passes precision = 1e-5·max(|Xc|_F, 1) to TruncatedSvd; linfa-linalg squares it and stops
+    // LOBPCG when every |A x_j − σ_j² x_j|₂ <= 1e-10·max(|Xc|_F², 1), A = Xc^T Xc. In covariance units:
+    //     |C v_j − (σ_j²/(n−1)) v_j| <= 1e-10 · max(trace C, 1/(n−1))   =: one "unit".
+    // It is asserted with a slack factor RITZ_SLACK where LOBPCG is inside its own domain and is not cut short by
+    // its iteration limit: 5k <= p, 2n >= 10p (limit min(10·dim, 2n) = 10p) and a relative gap at k of at least
+    // RITZ_MIN_GAP. Measured on the unchanged tree over 12 quick seeds (about 240 000 such fits): all <= 1 unit.
+    if spectral && !small_problem && 2 * n >= 10 * p {
+        let relgap = if k < p { (lam[k - 1] - lam[k]) / lam[k - 1] } else { 1.0 };
+        if relgap >= RITZ_MIN_GAP {
+            obs.class("ritz_residual_asserted");
+            let trace: f64 = (0..p).map(|i| cov[i][i]).sum();
+            let unit = 1e-10 * trace.max(1.0 / nm1);
+            for j in 0..kk {
+                let r2: f64 = cus[j].iter().zip(&dirs[j]).map(|(a, b)| (a - l[j] * b).powi(2)).sum();
+                let r = r2.sqrt() / unit;
+                if !obs.ensure(r <= RITZ_SLACK, "pca:ritz-residual", || {
+                    format!(
+                        "|C v_{j} - (sigma_{j}^2/(n-1)) v_{j}| = {:.3e} = {r:.3e} x the configured solver tolerance 1e-10*trace(C) (n={n}, p={p}, k={k}, relative gap at k = {relgap:.2})",
+                        r2.sqrt()
+                    )
+                }) {
+                    break;
+                }
+            }
         }
     }
 
@@ -519,20 +528,9 @@ pub fn check_pca(c: &Case, obs: &mut Obs) {
             obs.class_if(k > 1 && k < p, "judged_spectral_1<k<p");
             obs.class_if(!small_problem, "judged_spectral_5k<=p");
         } else if small_problem {
-            // third face of the LOBPCG breakdown inside 5k > p: the answer is not the leading eigen-solution
-            obs.class("solver_failed");
-            obs.class("solver_failed:not_leading");
-            obs.class_if(k > 1 && k < p && p % k != 0, "solver_failed:k_does_not_divide_p");
-            obs.class_if(k == p, "solver_failed:k=p");
-            obs.class_if(wide_range, "solver_failed:wide_range");
-            let names: Vec<&str> = optimal.iter().map(|(s, _)| *s).collect();
-            obs.fail(
-                "pca:solver-breakdown:not-leading-eigenpairs",
-                describe(&format!("the returned pairs are not the leading eigenpairs within TAU*lambda_1 (failed: {:?}; {})", names, optimal[0].1)),
-            );
-            // whatever else is wrong with this answer (sigma vs. variance along the component, orthogonality) is a
-            // consequence of the same breakdown
-            spectral = false;
+            for (sig, msg) in optimal.drain(..) {
+                obs.fail(sig, msg);
+            }
         } else if resid_own > RESID_MAX && ritz_like && mismatch <= RESID_MAX && sorted && excess <= NOT_CONVERGED_SLACK {
             // LOBPCG inside its own domain (5k <= p) stopped at its iteration limit (2n) with a component that the
             // independent residual shows is not converged, the answer is a genuine set of Ritz pairs and misses the
@@ -851,8 +849,9 @@ pub fn property() -> Property {
             "inverse_transform(transform(X)) is required to be the orthogonal projection about the mean for whitened models too (the statement quantifies over whitening on/off; DESIGN restricted it to un-whitened models)".into(),
             format!("design domain singular ratio <= 1e3: when lambda_k < {RANGE_MIN:e}*lambda_1 (sampling fluctuation, n close to p) only the solver-independent obligations are judged (class beyond_singular_ratio_1e3); data with (n-1)*lambda_1 < {SCALE_MIN:e} (reachable only by shrinking) is not judged"),
             format!("PCA exposes no convergence flag; every obligation is evaluated on whatever fit returns, with one exception: outside 5k > p, a result that the independent residual shows unconverged on a component's own scale, that is a genuine set of Ritz pairs and misses the lambda_1-scaled optimality tolerances by at most a factor {NOT_CONVERGED_SLACK} is counted as not judged (LOBPCG stopped at its iteration limit 2n)"),
-            format!("inside 5k > p (LOBPCG block not small against the dimension) the observed faces of the solver breakdown carry their own signatures pca:solver-breakdown:* (known findings), each recognised from reference quantities: not-leading-eigenpairs (a lambda_1-scaled optimality obligation fails), inconsistent-components (a component is no eigenvector within {RESID_MAX:e} of its own variance and the answer is no set of Ritz pairs), eigenpairs-misassigned (eigenvectors and eigenvalues, wrongly paired / not leading), unnormalised-component; for such a case the remaining solver-dependent obligations are consequences and are not evaluated. Outside 5k > p (k = 1 with p >= 5, k >= 2 with p >= 10) every obligation fails under its own name"),
-            "a panic of fit with linfa-linalg's message `NaN values in array` (eigh.rs) is signature pca:solver-breakdown:nan-panic, any other panic is panic:fit".into(),
+            format!("known findings are recognised only under the exact precondition of the external defect: pca:solver-breakdown:eigenpairs-misassigned = full-space path (5k > min(n,p)) and the answer is the exact decomposition up to ONE transposition: all components eigenvectors with unit-scaled mutually (C-)orthogonal rows, all sigma_j^2/(n-1) sorted and equal to the eigenvalue of their rank, every component carrying its own variance except one pair (a,b), both eigenvalues < {MISPAIR_TAIL:e}*lambda_1, carrying each other's (b may be truncated away); pca:solver-breakdown:inconsistent-components = full-space path, lambda_k < {GARBAGE_TAIL:e}*lambda_1, a component that is no eigenvector within {RESID_MAX:e} of its own variance and no member of a set of Ritz pairs; every other deviation fails under the ordinary signatures (pca:singular-value, pca:subspace, pca:retained-variance, pca:whitened-covariance, ...)"),
+            format!("pca:ritz-residual: |C v_j - (sigma_j^2/(n-1)) v_j| <= {RITZ_SLACK} * 1e-10 * max(trace C, 1/(n-1)) (the stopping tolerance linfa configures: precision 1e-5*|Xc|_F, squared by linfa-linalg, on the eigenproblem of Xc^T Xc) is asserted where LOBPCG runs inside its domain and is not cut short by its iteration limit: 5k <= p, 2n >= 10p, relative gap at k >= {RITZ_MIN_GAP}; measured on the unchanged tree (12 quick seeds, about 240 000 such fits): all within 1 x the tolerance. Outside that regime the unchanged tree itself leaves residuals up to ~3e3 x the tolerance (clustered trailing eigenvalues, iteration limit 2n), so nothing tighter than the lambda_1-scaled TAU obligations can be asserted there"),
+            "a panic of fit whose payload is linfa-linalg's `NaN values in array` AND whose recorded site is linfa-linalg .../eigh.rs is signature pca:solver-breakdown:nan-panic; any other panic (other payload or other site) is panic:fit".into(),
             "exactly k components are expected inside the design domain (the solver's rank cut-off pinned by test_explained_variance_cutoff is far below it)".into(),
             "layouts: the fitted model is judged by the same obligations whatever the layout; predict / transform of the same records in each of the other five layouts must equal the main scores within the formula tolerance (signature pca:predict-layout)".into(),
             "trusted base: ndarray, vengine::num::{covariance, jacobi_eigh, col_means}".into(),
